@@ -8,10 +8,14 @@
     C16_write, C16_write_default, C16_to_string    `Write` entry points = string entry points
     C16_xml_string, C16_xml_string_conv            full parameter set: prolog ++ (pretty) tokens
     C16_events_*                                   structure of the output-event stream
+    C16_normalizer_*                               the instances for a caller-supplied normalizer: `Xot::tokens(.., normalizer)`
+                                                   <-> `serialize_xml_string_with_normalizer`; the event stream of the
+                                                   normalised tree
 -/
 import XotModel.Lemmas.Output
 import XotModel.Lemmas.Events
 import XotModel.Lemmas.XmlDeclRest
+import XotModel.Lemmas.NormalizerXml
 
 namespace XotModel.Props
 open XotModel XotModel.Gen
@@ -311,5 +315,40 @@ example :
     genOutputs (.node .document [.node (.element 2) [.node (.attribute 3 ['A']) [], .node (.text ['T']) []]]) [0] =
       [([0], .startTagOpen 2), ([0], .pfx 1 1), ([0], .attribute 3 ['A']), ([0], .startTagClose),
        ([0, 1], .text ['T']), ([0], .endTag 2)] := by decide
+
+/-! ### C16_normalizer: a caller-supplied normalizer
+
+Every theorem above is for arbitrary escaping functions; `normEscapers N` (Model/Normalizer.lean: entity.rs
+with the normalizer `N`, `NoopNormalizer` = `id`) is one instance.  Spelled out for the two stream entry
+points that take a normalizer, `Xot::tokens(node, parameters, normalizer)` and
+`serialize_xml_string_with_normalizer`. -/
+
+/-- The token stream under the normalizer `N`, concatenated, is the string serialisation under `N`, for the
+    full parameter set; and conversely. -/
+theorem C16_normalizer_tokens (N : Str → Str) (env : Env) (pr : TokenParams) (t : Tree) (start : Path) :
+    (∀ ks, tokensWith (normEscapers N) env pr t start = .ok ks →
+      serializeStringWith (normEscapers N) env pr t start =
+        .ok (ks.flatMap (fun k => (if k.2.2.space then [' '] else []) ++ k.2.2.text))) ∧
+    (∀ s, serializeStringWith (normEscapers N) env pr t start = .ok s →
+      ∃ ks, tokensWith (normEscapers N) env pr t start = .ok ks ∧
+        s = ks.flatMap (fun k => (if k.2.2.space then [' '] else []) ++ k.2.2.text)) ∧
+    (∀ e, serializeStringWith (normEscapers N) env pr t start = .err e →
+      tokensWith (normEscapers N) env pr t start = .panic) :=
+  ⟨fun ks h => C16_tokens _ env pr t start ks h, fun s h => C16_tokens_conv _ env pr t start s h,
+   fun e h => C16_tokens_fail _ env pr t start e h⟩
+
+/-- The `Write` entry point with a normalizer writes what the string entry point with it returns. -/
+theorem C16_normalizer_write (N : Str → Str) (env : Env) (p : XmlParams) (t : Tree) (start : Path) :
+    (∀ w, serializeXmlWriteWith (normEscapers N) env p t start = (w, .ok ()) →
+        serializeXmlStringWith (normEscapers N) env p t start = .ok w) ∧
+    (∀ s, serializeXmlStringWith (normEscapers N) env p t start = .ok s →
+        serializeXmlWriteWith (normEscapers N) env p t start = (s, .ok ())) :=
+  ⟨(C16_write _ env p t start).1, (C16_write _ env p t start).2.1⟩
+
+/-- The event stream of the normalised tree is the event stream of the tree with `N` applied to the strings of
+    the `Text` and `Attribute` events: same events, same nodes, same order. -/
+theorem C16_normalizer_events (N : Str → Str) (t : Tree) (start : Path) :
+    genOutputs (t.mapText N) start = (genOutputs t start).map (fun po => (po.1, po.2.mapText N)) :=
+  genOutputs_mapText N t start
 
 end XotModel.Props
